@@ -24,7 +24,8 @@ ASSUMPTIONS = [
     "NodeError text: '\"msg\" at\\n<file>:<line> <line text>'; scanner error text: '<file>:<line>:<column> : msg\\n<line text>\\n<caret>'",
     "column conventions: the offending suffix / index letter; the opening quote of an unterminated string (as tests/test_parse.py pins)",
 ]
-WEIGHTS = dict(ins=6, data=4, label=3, block=2, scope=1, macro=1.5, call=1.5, for_=0.8, if_=0.8, assign=1, sym=0.8, org=0.5, reloc=0.2, ascii=0.8, branch=0.0)
+WEIGHTS = dict(ins=6, data=4, label=3, block=2, scope=1, macro=1.5, call=1.5, for_=0.8, if_=0.8, assign=1, sym=0.8, org=0.5, reloc=0.2, ascii=0.8, branch=0.0,
+               table=0.2, text=0.4, incbin=0.3, include_ips=0.15)
 
 # name -> (kind, statement text, marker whose position gives the column, offset of the column inside the marker)
 FAULTS = {
